@@ -804,6 +804,21 @@ def interaction_programs_c17(tier="quick"):
         for r in keyed:
             for vname, (vrec, vdt) in variants.items():
                 add(r, vname, vrec, vdt, r, bname)
+    # many other keyed draws in between (one Hutchinson call that walks 300 links of its key chain, then 40 different
+    # explicit keys): whatever is memoised per draw has long been evicted when the first call is repeated
+    for r in keyed:
+        steps = [{"op": "make", "slot": "AK", "recipe": kinds["generic"]},
+                 {"op": "call", "fn": r[0], "args": args(r[0], r[1], "AK", "f8")},
+                 {"op": "make", "slot": "V", "recipe": G("f8", 40)},
+                 {"op": "call", "fn": "hutch", "args": {"A": {"slot": "V"}, "tol": 0.0011, "max_iters": 300, "k": 0, "key": 1000}}]
+        steps += [{"op": "call", "fn": "lanczos", "args": {"A": {"slot": "V"}, "max_iters": 1, "key": 2000 + i}} for i in range(40)]
+        steps += [{"op": "call", "fn": r[0], "args": args(r[0], r[1], "AK", "f8"), "repeat_of": 1}]
+        for j, st in enumerate(steps):
+            st["id"] = j
+        nm = r[0] + "".join("_%s" % x for x in r[1].values() if isinstance(x, (str, int)))
+        out.append({"name": "interaction/eviction/%s" % nm,
+                    "program": {"property": "C17", "run_seed": 0, "rng0": 3, "config": {"matrix": ["interaction", "eviction", nm]},
+                                "mode": "explicit", "steps": steps}})
     for r1 in core1:
         for r2 in core1:
             if r1 is not r2:
